@@ -178,3 +178,62 @@ def fuzz(cfiles, contract, trials=200, seed=0, lib="phonopy"):
                     "real_code": info, "expected": "every ensures clause of the contract holds on the real function's output"}
     return {"reproduced": False, "executions": nrun, "last_skip": skipped,
             "reason": "no failing input among %d executions of the real function" % nrun}
+
+
+def asan_fuzz(cfiles, contract, trials=200, seed=0):
+    """Replay for memory-safety obligations: precondition-satisfying generated inputs are run through an
+    AddressSanitizer build of the real sources; an out-of-bounds access is a failing input."""
+    if contract.gen is None:
+        return {"reproduced": False, "reason": "contract has no input generator"}
+    h = Harness(cfiles, contract)
+    rnd = random.Random(seed)
+    cases, kept = [], []
+    for t in range(trials):
+        inputs = contract.gen(rnd)
+        env = {}
+        ok = True
+        case = []
+        for name, ty, ct, dt in h.ptypes:
+            v = inputs.get(name)
+            if ty in ("real", "int"):
+                if name in (contract.fixed or {}):
+                    v = contract.fixed[name]
+                env[name] = float(v) if ty == "real" else int(v)
+                case.append(("scalar", {ctypes.c_double: "double", ctypes.c_int64: "int64", ctypes.c_int: "int", ctypes.c_char: "char"}[ct], env[name]))
+            elif v is None:
+                env[name + "_is_null"] = True
+                case.append(("array", None, None))
+            else:
+                env[name + "_is_null"] = False
+                a = np.ascontiguousarray(np.array(v, dtype=dt))
+                env[name] = a
+                case.append(("array", str(a.dtype), a))
+        for k_, v_ in inputs.items():
+            if k_ not in env:
+                env[k_] = v_
+        ev0 = Evaluator(env, qrange=h.qrange(env))
+        if contract.interp:
+            try:
+                ev0.funcs.update(contract.interp(h, ev0, env))
+            except Exception:
+                pass
+        for lab, r in h.requires:
+            try:
+                if not ev0.ev(r):
+                    ok = False
+                    break
+            except Unsupported:
+                ok = False
+                break
+        if ok:
+            cases.append(case)
+            kept.append(inputs)
+    if not cases:
+        return {"reproduced": False, "reason": "no generated input satisfied the precondition"}
+    idx, rep = creplay.asan_run(contract.func, cases)
+    if idx is None:
+        return {"reproduced": False, "executions": len(cases), "reason": rep or "no sanitizer report in %d executions" % len(cases)}
+    bad = kept[idx]
+    return {"reproduced": True, "executions": idx + 1, "sanitizer": rep,
+            "real_code": {"inputs": {k: (v.tolist() if isinstance(v, np.ndarray) else v) for k, v in bad.items()}},
+            "expected": "every access stays inside the arrays the function is given"}
